@@ -259,6 +259,7 @@ func runItem(prog *ssa.Program, it PlanItem, plan *Plan, known map[string]bool, 
 			}
 		}
 	}()
+	noSlice = envNoSlice || cfg.Params["noslice"] == 1
 	res := RunHarness(prog, fn, it.Fn, cfg)
 	r.Paths, r.Outcomes, r.Sites, r.Covers, r.Asserts, r.KnownHit = res.Paths, res.Outcomes, res.Sites, res.Covers, res.Asserts, res.KnownHit
 	r.Violations, r.Funcs, r.Queries, r.Unknown = res.Viol, res.Funcs, res.Queries, res.Unknown
